@@ -16,7 +16,21 @@ variable {P : DNode → Bool} {fx : Fixes}
 
 /-- an original node of the first diff: exact for the instance of `L` at its place, literal leaf metadata -/
 def Orig (S : Schema) (P : DNode → Bool) (cur : Option Op) (L : List DNode) (t : DNode) : Prop :=
-  exactE S P cur (look S L t) t = true ∧ litN t = true ∧ (t.isTerm = true → ∃ op, ownOp t = some op)
+  exactE S P cur (look S L t) t = true ∧ litN t = true ∧
+    (∀ op, effOp t cur = some op → (t.isTerm = true ∨ op ≠ .none) → ownOp t = some op)
+
+/-- at a level whose nodes inherit `none` (or nothing) every exact literal node has its operation as its own, unless it is an
+inner node with operation `none` -/
+theorem own_of_inhOK {S : Schema} {cur : Option Op} (hcur : InhOK cur) {t : DNode} {e : Option DNode}
+    (hex : exactE S P cur e t = true) (hl : litN t = true) :
+    ∀ op, effOp t cur = some op → (t.isTerm = true ∨ op ≠ .none) → ownOp t = some op := by
+  intro op hop h
+  rcases h with ht | hne
+  · obtain ⟨op', ho⟩ := own_of_exact_lit hcur ht hex hl
+    have := effOp_own' ho cur
+    rw [hop] at this
+    rw [ho, Option.some.inj this]
+  · exact ownOp_of_effOp hcur hop hne
 
 /-- the operation the nodes of a source level inherit: `none` (or none at all), or `delete` (the copies inside a deleted subtree) -/
 def SrcOK (sin : Option Op) : Prop := InhOK sin ∨ sin = some .delete
@@ -172,7 +186,7 @@ theorem merge_matched_term {S : Schema} (K : KeyOrderOn S P) {o : MergeOpts}
   have hlY : look S Y src = look S Y t := look_congr K (goodT_goodL hgY) hsd htd hm
   have hy : (look S Y src).map normN = tEff t cop := by rw [hlY, hR.on t hmem, hEt]
   obtain ⟨m, hcell, hmd, hmt, hms, hmm, ⟨opm, hopm⟩, halt⟩ :=
-    term_cell (fx := fx) K hq htt hst hm htex hlt hsex hls (good_look hgL) (good_look hgY) hcop hsop hy hsafe (hown htt)
+    term_cell (fx := fx) K hq htt hst hm htex hlt hsex hls (good_look hgL) (good_look hgY) hcop hsop hy hsafe ⟨_, hown _ hcop (Or.inl htt)⟩
       (src_own_or_plain hsin hst hsex hls hsop)
   obtain ⟨Y', hY', hgY', hkY', hloc, hval⟩ := acts_exact_term (fx := fx) K hst hsex hsop (good_look hgY) n hp Y hh hgY hkb rfl
   have hkids : (fun (c' s' : Option Op) (tk : List DNode) => if src.isTerm then Except.ok tk else mergeKids S o c' s' true src.kids tk)
@@ -335,10 +349,10 @@ theorem merge_matched_inner {S : Schema} (K : KeyOrderOn S P) {o : MergeOpts} {n
       intro c hc tk htk hmc
       rw [hdk] at hc
       have h1 := exactK_mem true kt hexkt tk (by simpa [dk] using htk)
-      have hlk := litL_mem (by simpa [litN] using hlt) ((noKeys_sublist S kt).subset htk)
-      exact ⟨⟨h1.1, hlk, fun htt => own_of_exact_lit (Or.inr hcur') htt h1.1 hlk⟩,
+      have hlk := litL_mem (by simp only [litN, Bool.and_eq_true] at hlt; exact hlt.2) ((noKeys_sublist S kt).subset htk)
+      exact ⟨⟨h1.1, hlk, own_of_inhOK (Or.inr hcur') h1.1 hlk⟩,
         safeK_mem hsafeK c ((noKeys_sublist S ks).subset hc) tk htk hmc⟩)
-    hexks (by simpa [litN] using hls)
+    hexks (by simp only [litN, Bool.and_eq_true] at hls; exact hls.2)
   rw [keysOf_append_noKeys] at hmk
   rw [hdk] at hYk'
   -- the source node on `Y`
@@ -582,7 +596,7 @@ theorem merge_apply_exact {S : Schema} (K : KeyOrderOn S P) {o : MergeOpts}
       intro c hc t ht hmt
       rw [hdk2] at hc
       have hex := (exactK_mem false D1 hD1 t (by rw [hdk1]; exact ht)).1
-      exact ⟨⟨hex, litL_mem hl1 ht, fun htt => own_of_exact_lit (Or.inl rfl) htt hex (litL_mem hl1 ht)⟩,
+      exact ⟨⟨hex, litL_mem hl1 ht, own_of_inhOK (Or.inl rfl) hex (litL_mem hl1 ht)⟩,
         safeK_mem hsafe c hc t ht hmt⟩)
     hD2 hl2
   rw [hdk2] at ha
